@@ -28,6 +28,9 @@ SCENARIOS = {
     "empty":    [([{"a": "Init"}, {"a": "Clone", "w": 1}, st(2, 1, A)], [1, 2])],
     "three":    [([{"a": "Init"}, st(1, 1, A), {"a": "Clone", "w": 1}, st(2, 1, B), {"a": "Clone", "w": 1},
                    {"a": "Delete", "w": 3, "sh": 1, "r": 1}], [1, 2, 3])],
+    # a lazily reopened workbook: sheet S1 edited (loaded), sheet S2 still raw; savers = it and a clone of it
+    "lazy":     [([{"a": "Init"}, st(1, 1, A), st(1, 1, B, sh=2), {"a": "Save", "w": 1}, {"a": "Reload", "w": 1, "lazy": True},
+                   st(2, 1, C), {"a": "Clone", "w": 2}, st(3, 2, "Qd7x")], [2, 3])],
 }
 
 
@@ -90,11 +93,21 @@ def to_trace(case, evs):
         return [{"a": "Fatal", "case": case["case"], "outcome": "crash"}]
     done = done[0]
     savers = done["savers"]
-    todo = []
+    todo, want, base = [], [], []
+    loaded_sst = []
+    for e in evs:                              # table of the (last) file written during the set-up
+        if e.get("a") == "Save" and e.get("hex"):
+            try:
+                loaded_sst = sst_view.view(bytes.fromhex(e["hex"]), UNIVERSE)["sst"]
+            except Exception:
+                loaded_sst = []
     for w in savers:
-        cells = sorted(done["texts"][w - 1]["cells"])
-        todo.append([c[2] for c in cells])
-    out = [{"a": "Start", "case": case["case"], "todo": todo, "grp": [1] * len(savers)}]
+        t = done["texts"][w - 1]
+        cells = sorted(t["cells"])
+        want.append([c[2] for c in cells])
+        todo.append([c[2] for c in cells if c[0] not in t["raw"]])     # raw sheets are copied, not re-registered
+        base.append(loaded_sst if t["raw"] else [])
+    out = [{"a": "Start", "case": case["case"], "todo": todo, "grp": [1] * len(savers), "base": base}]
     out += [e for e in evs if e.get("a") == "Step"]
     outs = []
     for o in done["outs"]:
@@ -106,7 +119,7 @@ def to_trace(case, evs):
                     cells += [c[1] for c in sh["cells"]]
             except Exception:
                 v = dict(EMPTY_VIEW)
-        outs.append({"outcome": o["outcome"], "view": v, "cells": cells})
+        outs.append({"outcome": o["outcome"], "view": v, "cells": cells, "want": want[len(outs)]})
     out.append({"a": "Done", "case": case["case"], "outcome": done["outcome"], "outs": outs})
     return out
 
@@ -131,7 +144,7 @@ def judge(chk, cases):
 
 
 def run(chk):
-    for sc in ("equal", "disjoint", "overlap", "empty", "three"):
+    for sc in ("equal", "disjoint", "overlap", "empty", "three", "lazy"):
         vlib.tlc_mc("MC_ConcSave", f"MC_ConcSave_{sc}.cfg", workers=2, check=chk)
     dev = vlib.run_tlc("MC_ConcSave", "MC_ConcSave_deviant.cfg", workers=2, coverage=False)
     if dev.violation is None or "PartIffRel" not in dev.violation:
@@ -142,7 +155,7 @@ def run(chk):
     chk.evaluations = len(cases)
     chk.nontrivial = {(c["scenario"], json.dumps(c["steps"][-1])) for c in cases}
     chk.rule = ("a case is a scenario (string sets equal / disjoint / overlapping / one saver without strings / three "
-                "savers; same object through shared references or clones) plus one complete interleaving of the savers at "
+                "savers; a lazily reopened workbook with a raw sheet; same object through shared references or clones) plus one complete interleaving of the savers at "
                 "the granularity of the yield points; 2-saver scenarios: all interleavings (quick: at most 1200 sampled "
                 "for the 3432 of 'equal'), 3 savers: TLC-simulated; distinct (scenario, savers, schedule) triples")
     chk.sample({"scenario": cases[0]["scenario"], "script": cases[0]["steps"], "trace": events[0][:4]})
